@@ -116,3 +116,27 @@ def c14_2(run):
     if not n2:
         raise Inconclusive('vacuity: no pair of successful updates')
     run.require_reached(*run.cur.reach)
+
+
+
+def replay_f8(model=None, path=None):
+    """native demonstration of F8: add-then-remove of a new validator in one block"""
+    from vlib import replay
+    code = open('/verif/replay_templates/c14_add_remove.rs').read()
+    r = replay.run_crate_test('astria-sequencer', 'crates/astria-sequencer/src/checked_actions/validator_update.rs', code, 'verif_replay_c14')
+    if not r['lines']:
+        return {'mode': 'native-crate-test', 'reproduced': None, 'error': r['output'][-1500:]}
+    o = r['lines'][-1]
+    return {'mode': 'native-crate-test', 'scenario': 'sudo adds a new validator (power 7) and removes it (power 0) in the same block', 'observed': o,
+            'reproduced': (not o['known_before']) and (not o['stored_after']) and o['update_entry_power'] == 0}
+
+
+@obligation('C14', 'C14-2n native demonstration of the recorded finding F8 (informational: records whether it still reproduces; never fails the check)', tiers=('thorough',))
+def c14_2n(run):
+    run.bound(scenario='one concrete block with two validator updates')
+    v = replay_f8()
+    run.sample({'native_demonstration': v})
+    run.cur.paths += 1
+    run.reached('native demonstration executed')
+    if v.get('reproduced') is None:
+        run.cur.notes.append('native demonstration of F8 could not be run: ' + str(v.get('error'))[-300:])
